@@ -60,6 +60,7 @@ def _cases(draw):
             "cmake": "project" if d.chance(PROJECT_PCT.get(p, 0)) else ("plain" if d.chance(20) else None),
             "rename": [d.pick(NAMES) for _ in range(d.int(1, 2))] if d.chance(45) else None,
             "defaults": {},
+            "spelling": d.weighted([(6, 0), (2, 1), (1, 2), (1, 3)]),
         }
         for fname in ("sdkconfig.defaults", "sdkconfig.ci.test", "sdkconfig.defaults.esp32"):
             if d.chance(35):
@@ -90,7 +91,9 @@ def _materialize(case, root):
             with open(os.path.join(dp, "CMakeLists.txt"), "w") as f:
                 f.write("cmake_minimum_required(VERSION 3.16)\n")
                 if spec["cmake"] == "project":
-                    f.write("include($ENV{IDF_PATH}/tools/cmake/project.cmake)\n  project(demo)\n")
+                    # the spellings CMake accepts for the call that the documentation names as the mark of a project root
+                    call = ("  project(demo)", "project (demo)", "project\t(demo)", "\tproject( demo )")[spec.get("spelling", 0) % 4]
+                    f.write("include($ENV{IDF_PATH}/tools/cmake/project.cmake)\n" + call + "\n")
                 else:
                     f.write("idf_component_register(SRCS main.c)\n# project(not_really)\n")
         if spec["rename"]:
